@@ -29,7 +29,7 @@ def run(ctx):
             if "obj" not in f.params or f.is_overload:
                 continue
             if not any(isinstance(a, ast.Attribute) and a.attr in ("default",) and isinstance(a.ctx, ast.Store) for a in ast.walk(f.node)) \
-                    and "_set_instantiate" not in ast.unparse(f.node):
+                    and "_set_instantiate" not in ast.unparse(f.node) and "setattr(" not in ast.unparse(f.node):
                 continue
             cfg = ctx.facts.cfg(f)
             for n in cfg.live_nodes():
@@ -40,6 +40,13 @@ def run(ctx):
                 for c in calls_in(n):
                     if norm(c.func) == "self._set_instantiate":
                         hit = "self._set_instantiate(...)"
+                    if norm(c.func) == "setattr" and c.args:
+                        tgt = c.args[0]
+                        al = ctx.facts.local_aliases(f)
+                        if isinstance(tgt, ast.Name) and tgt.id in al:
+                            tgt = al[tgt.id]
+                        if norm(tgt) in ("self.owner", "self.objtype", "type(obj)", "obj.__class__"):
+                            hit = "setattr(%s, ...)" % norm(tgt)
                 if hit is None:
                     continue
                 n_writes += 1
